@@ -380,3 +380,24 @@ def run(ctx):
         db.rel,
         pr.lineno,
     )
+
+    # ---- C23.8 who may create subtree rows ---------------------------------------------------------------------
+    # A call node's CallSubtreeTask rows are the destination's licence to replay it shallowly (C03.1: no rows = untrusted).  Only the recorder,
+    # which is given the set computed from the job tree, may write them; a transfer that synthesises rows (e.g. "a call without children ran
+    # only its own task" -- false for children run with prov=False) makes the destination serve results the source would refuse.
+    r8 = ctx.rule("C23.8", "CallSubtreeTask rows are constructed only by record_call_node", floor=1)
+    SUBTREE_WRITERS = ("RedunBackendDb.record_call_node",)
+    n8 = 0
+    for mod8, c in repo.all_calls(lambda c: (call_name(c) or "").split(".")[-1] == "CallSubtreeTask"):
+        q8 = mod8.enclosing_qual(c)
+        n8 += 1
+        r8.check(
+            mod8.rel == db.rel and q8 in SUBTREE_WRITERS,
+            f"{mod8.rel}:{q8}:constructs-subtree-row",
+            f"{q8} constructs CallSubtreeTask rows; only {SUBTREE_WRITERS} (given the subtree set computed from the job tree) may: a transferred call node with made-up subtree rows passes the "
+            "`no rows = untrusted` guard of _get_call_node and is replayed although a task beneath it (one that ran with prov=False) changed",
+            mod8.rel,
+            c.lineno,
+        )
+    if n8 == 0:
+        raise AnalysisError("no CallSubtreeTask(...) construction found", "CallSubtreeTask")
